@@ -3,14 +3,14 @@ import contextlib
 import copy
 import io
 
-from .. import coqbuild, edtie, irtools as T
+from .. import coqbuild, edtie, gtie, irtools as T
 from ..common import CORPUS_SEED, GLOBAL_TRUSTED_BASE
 from ..model import call_many
 from ..pool import guarded, run_cases
 
 THEOREMS = ["C01_default_in_prose", "C01_default_announced_once", "C01_default_stripped", "C01_quote_idempotent", "C01_example",
             "C01_rest_scan_lossless", "C01_rest_scan_splits_at_tokens", "C01_rest_emit_canonical", "C01_rest_parse_canonical",
-            "C01_rest_roundtrip", "C01_rest_roundtrip_return_only", "C01_rest_roundtrip_no_types", "C01_rest_emit_indented_canonical", "C01_rest_roundtrip_indented", "C01_rest_example", "C01_rest_tokens_are_the_sources", "C01_no_announcer_no_default", "C01_default_text_roundtrip", "C01_text_without_full_stop_is_kept", "C01_default_text_examples", "C01_announcers_are_the_sources", "C01_rest_default_roundtrip", "C01_rest_default_example", "C01_rest_text_is_detected_as_rest", "C01_style_tokens_are_the_sources", "C01_style_examples"]
+            "C01_rest_roundtrip", "C01_rest_roundtrip_return_only", "C01_rest_roundtrip_no_types", "C01_rest_emit_indented_canonical", "C01_rest_roundtrip_indented", "C01_rest_example", "C01_rest_tokens_are_the_sources", "C01_no_announcer_no_default", "C01_default_text_roundtrip", "C01_text_without_full_stop_is_kept", "C01_default_text_examples", "C01_announcers_are_the_sources", "C01_rest_default_roundtrip", "C01_rest_default_example", "C01_rest_text_is_detected_as_rest", "C01_style_tokens_are_the_sources", "C01_style_examples", "C01_google_params_roundtrip", "C01_google_line_not_afterward", "C01_google_examples", "C01_numpy_unit_roundtrip", "C01_numpy_params_roundtrip", "C01_numpy_without_types_refuted", "C01_numpy_example"]
 # no " of " / " or ": those make _set_name_and_type infer a type from the prose (parse_adhoc_doc_for_typ, C17's subject), outside Model/RestDoc.v
 REST_WORDS = ["the", "size", "within", "buffer", "in", "bytes", "name", "used", "for", "lookup", "how", "many", "items", "(optional)", "e.g.", "a-b",
               "x_y", "[units]", "100%", "fast;", "slow,", "path/to", "it's", '"quoted"', "param", "type", "return", "rtype", "3.5", "N/A", "é"]
@@ -107,13 +107,19 @@ def check_case(arg):
                     if not etypes and style != "google":
                         for p in list(want["params"].values()) + ([want["returns"]["return_type"]] if want.get("returns") else []):
                             p.pop("typ", None)
+                    if want.get("returns") and not {k: v for k, v in want["returns"]["return_type"].items() if v not in (None, "")}:
+                        want["returns"] = None      # nothing of the return entry is written: no entry is the same interface
                     its = T.compare(want, out, edd=True)
                     if not etypes and style != "google":
                         its = [(c, d) for c, d in its if "typ-invented" not in c]   # a type inferred from the default is allowed
                     if not its:
                         clean += 1
+                    bare = not etypes and any(not e.get("doc") for e in list(ir["params"].values()) + ([ir["returns"]["return_type"]] if ir.get("returns") else []))
                     for cls, det in its:
-                        if style != "rest":
+                        if bare and cls in ("names/missing", "returns-drift"):
+                            # an entry without a description, written with types omitted: nothing of it is written at all
+                            cls += "/entry-without-description"
+                        elif style != "rest":
                             # Google/NumPy round trips drift in too many ways on the pinned tree for fine classes to be stable
                             # (defaults move between parameters, types lose characters): keep only the kind of drift
                             if cls.startswith("param/default:"):
@@ -129,6 +135,9 @@ def check_case(arg):
                             # ... and on whether the declared type is one of simple_types (only then the text is converted by type)
                             decl = ((ir["params"].get(det.get("param")) or {}) if cls.startswith("param/") else ((ir.get("returns") or {}).get("return_type") or {})).get("typ")
                             cls += "/simple-type" if decl in ("int", "float", "str", "bool", "complex") else "/other-type"
+                        if cls.startswith("param/") and not (ir["params"].get(det.get("param")) or {"doc": 1}).get("doc"):
+                            # a parameter without a description: in ReST the line that would carry "Defaults to" is not written at all
+                            cls = "param/default-lost/param-without-description" if "->absent" in cls else cls + "/param-without-description"
                         items.append(("C01/%s/%s" % (tag, cls), dict(det, docstring=src[:300], word_wrap=ww, parser_keeps_announcer=pedd, corpus_key=ckey)))
     return items, n, clean, keys
 
@@ -351,7 +360,12 @@ def collect(ctx, n_ir, n_sdd):
     work = []
     for i in range(n_ir):
         style = STYLES[i % 3]
-        work.append(("ir", (gen_ir(rng, style), style)))
+        ir = gen_ir(rng, style)
+        if ir["params"] and rng.random() < 0.3:
+            # parameters that carry a type (and maybe a default) but no description
+            for nm in rng.sample(list(ir["params"]), rng.randint(1, len(ir["params"]))):
+                ir["params"][nm].pop("doc", None)
+        work.append(("ir", (ir, style)))
     # corpus: string defaults that look like other literals, on types that mention str only nested
     from collections import OrderedDict
     for typ, dflt in (("Union[int, str]", "3"), ("Union[int, str]", "True"), ("List[str]", "-1"), ("Union[str, float]", "abc")):
@@ -369,6 +383,20 @@ def collect(ctx, n_ir, n_sdd):
                              "params": OrderedDict((("count", {"typ": "int", "doc": "the value"}),
                                                     ("sep", {"typ": "Optional[str]", "doc": "the separator", "default": '```("-" * 3).join("ab")```'}),
                                                     ("names", {"typ": "List[str]", "doc": "the names", "default": '```["b", "a"].copy()```'})))}, style)))
+    # corpus: one parameter (first / middle / last) with a type and no description; interfaces without parameters and a return entry
+    # that has only a description or only a type
+    for style in STYLES:
+        for k, undoc in enumerate((None, "dataset_name", "batch_size", "shuffle")):
+            ps = OrderedDict((("dataset_name", {"typ": "str", "doc": "dataset to load"}), ("batch_size", {"typ": "int", "doc": "rows per batch"}),
+                              ("shuffle", {"typ": "bool", "doc": "randomise the row order"})))
+            if undoc:
+                del ps[undoc]["doc"]
+            work.append(("ir", ({"name": "thing", "doc": "Load the dataset.", "params": ps,
+                                 "returns": OrderedDict((("return_type", {"typ": "List[str]", "doc": "the loaded rows"}),))}, style, "u%d" % k)))
+        for k, ret in enumerate(({"typ": "int", "doc": "the count"}, {"doc": "the count"}, {"typ": "int"})):
+            for j, head in enumerate(("Count them.", "")):
+                work.append(("ir", ({"name": "thing", "doc": head, "params": OrderedDict(),
+                                     "returns": OrderedDict((("return_type", dict(ret)),))}, style, "r%d%d" % (k, j))))
     work += corpus_work(12 if n_ir < 200 else 100)
     work += [("sdd", sdd_case(rng)) for _ in range(n_sdd)]
     work += [("ed", (edtie.gen(rng), rng.random() < 0.5)) for _ in range(2 * n_sdd)]
@@ -421,6 +449,13 @@ def run(ctx):
         i_ = derive_docstring_format(t_).name
         if i_ != m_:
             corr.append({"stage": "derive_docstring_format", "input": t_, "impl": i_, "model": m_})
+    # Model/GoogleLine.v (C01_google_*) against emit_param_str and the Google unit reader
+    n_g, g_bad = gtie.compare([gtie.gen(ctx.rng) for _ in range(150 if ctx.quick else 4000)])
+    corr += g_bad[:3]
+    agg["google_lines"] = n_g
+    n_n, n_bad = gtie.compare_numpy([gtie.gen_numpy(ctx.rng) for _ in range(150 if ctx.quick else 4000)])
+    corr += n_bad[:3]
+    agg["numpy_entries"] = n_n
     cf_bad = edtie.casefold_facts()
     if cf_bad:
         corr.insert(0, {"stage": "str.casefold facts assumed by Model/ExtractDefault.v:fold_char", "code_points": cf_bad[:10]})
@@ -438,8 +473,10 @@ def run(ctx):
             "Model/RestDoc.v transcribes the ReST emitter (word_wrap off, indent 0, no _internal) and _scan_phase_rest / _parse_phase_rest; "
             "interpolate_defaults, _set_name_and_type and extract_default are NOT in it and act as the identity on the theorem's domain "
             "(clean colon-free prose without a default announcer, names not ending in kwargs): that is checked by the correspondence on "
-            "every run, not proved. Google / NumPy scanners and defaults in the prose are evaluated on the implementation only "
-            "(differences matched per class); set_default_doc / quote are modelled separately"],
+            "every run, not proved. Model/GoogleLine.v transcribes the Google parameter line of emit_param_str and the one-line unit reader "
+            "with the afterward cut (the scanner that forms the units, interpolate_defaults and _set_name_and_type are not in it; the tie "
+            "runs whole docstrings through parse_docstring). NumPy, multi-line units and defaults in the prose are evaluated on the "
+            "implementation only (differences matched per class); set_default_doc / quote are modelled separately"],
         "evaluations": agg["hops"] + agg["sdd"], "distinct_nontrivial": agg["n"] + agg["sdd"],
         "rule": "IRs of the docstring-representable domain (scalars, Optional, Literal, List, Union, dotted names; int/float(+/-, 1e+20)/"
                 "bool/str/None/code-quoted defaults; suffix defaults for Google/NumPy) x 3 styles x emit_default_doc x emit_types x "
@@ -450,11 +487,12 @@ def run(ctx):
         "input_distribution": agg["distribution"], "corpus_configurations_run": len(agg["corpus_keys"]),
         "set_default_doc_cases": agg["sdd"], "rest_model_cases": agg["rest"], "model_disagreements": len(corr),
         "extract_default_cases": agg["ed"], "extract_default_cases_with_a_default_found": agg["ed_found"],
-        "traces_validated_against_impl": agg["sdd"] + 4 * agg["rest"] + agg["ed"],
+        "google_lines_and_sections_compared_with_model": agg["google_lines"], "numpy_entries_and_sections_compared_with_model": agg["numpy_entries"],
+        "traces_validated_against_impl": agg["sdd"] + 4 * agg["rest"] + agg["ed"] + agg["google_lines"] + agg["numpy_entries"],
         "samples": [T.jsonable(work[0][1][0])],
         "build": {k: status[k] for k in ("build_s", "forbidden")},
     }
-    return ctx.finish("proof", cov, assumptions=["style detection, scanning and default extraction are observed, not proved"])
+    return ctx.finish("proof", cov, assumptions=["the Google / NumPy scanners that form the units, multi-line units and default extraction through the whole pipeline are observed, not proved"])
 
 
 def replay(ctx, payload):
